@@ -10,6 +10,8 @@ import Frugal.Generated
 import Frugal.Alloc
 import Frugal.Bitset
 import Frugal.DescMap
+import Frugal.Norm
+import Frugal.Proofs.NormFacts
 open Frugal Frugal.Proto
 
 structure Ctx where
@@ -66,6 +68,36 @@ def canonGoDec (toks : List String) : String :=
     | none => "unparsable:" ++ v
   | other => " ".intercalate other
 
+/-- struct ids reachable from `sid` through field types -/
+def reachFrom (S : Schema) : Nat → List Nat → List Nat → List Nat
+  | 0, _, seen => seen
+  | _, [], seen => seen
+  | fuel + 1, sid :: todo, seen =>
+    if seen.contains sid then reachFrom S fuel todo seen
+    else reachFrom S fuel ((S.get sid).fields.flatMap (·.ty.structRefs) ++ todo) (sid :: seen)
+
+/-- the schema restricted to the types a value of struct `sid` can contain -/
+def subSchema (S : Schema) (sid : Nat) : Schema :=
+  let r := reachFrom S (S.length * S.length + S.length + 1) [sid] []
+  (List.range S.length).map fun j => if r.contains j then S.get j else { fields := [] }
+
+/-- C01 (`Frugal.C01.roundtrip`): the first of its hypotheses this (schema, value, destination)
+    does not meet, if any -/
+def rtWhy (S : Schema) (i : Nat) (vv dv : Val) : Option String :=
+  match vv with
+  | .st xs h =>
+    if !S.ok then some "schema-not-ok"
+    else if !(S.all fun sd => sd.fields.all fun f => !f.nocopy) then some "nocopy-field"
+    else if !S.rtSideB then some "schema-side-condition"
+    else if !hasTy S (.strct i) vv then some "value-not-typed"
+    else if !hasTy S (.strct i) dv then some "dest-not-typed"
+    else if !(h.isEmpty && noHolderList xs) then some "holder-bytes"
+    else if !sizesFitList xs then some "size"
+    else if !rtOK S (.strct i) vv then some "nil-struct-with-required-fields"
+    else if !decide (depth (toWire S (.strct i) vv) ≤ 511) then some "depth"
+    else none
+  | _ => some "not-a-struct"
+
 def handle (ctx : Ctx) (ln : String) : Option String :=
   match ln.splitOn " -> " with
   | [lhs, rhs] =>
@@ -112,6 +144,19 @@ def handle (ctx : Ctx) (ln : String) : Option String :=
         let exp := outcomeStr res
         let got := canonGoDec go
         if exp == got then none else some s!"DIFF dec sid={sid} in={inp} dest={dest} model=[{exp}] go=[{got}]"
+    | ["rt", sid, v, dest] =>
+      match parseValStr v, parseValStr dest with
+      | some vv, some dv =>
+        let i := sid.toNat!
+        let S' := subSchema ctx.S i
+        match rtWhy S' i vv dv with
+        | some why => some ("SKIP rt:" ++ why)
+        | none =>
+          let exp := "ok " ++ toString (appendM ctx.P S' i vv).length ++ " " ++ showVal (normTop S' i vv dv)
+          let got := canonGoDec go
+          if exp == got then none
+          else some s!"DIFF rt sid={sid} val={v} dest={dest} normal-form=[{exp}] go=[{got}]"
+      | _, _ => some s!"BADLINE {ln}"
     | ["span", ops] =>
       -- ops: n:align,n:align,...   go: blk:off,...  (block index, offset inside block) ; base addresses mod 8 given first
       -- ops: <initBaseMod8>;n:align:baseMod8,...      go: blk:off ...
@@ -149,15 +194,22 @@ def handle (ctx : Ctx) (ln : String) : Option String :=
     | _ => none
   | _ => none
 
-partial def loop (ctx : Ctx) (h : IO.FS.Stream) (lineNo diffs : Nat) : IO (Nat × Nat) := do
+def bump (k : String) : List (String × Nat) → List (String × Nat)
+  | [] => [(k, 1)]
+  | (a, n) :: r => if a == k then (a, n + 1) :: r else (a, n) :: bump k r
+
+partial def loop (ctx : Ctx) (h : IO.FS.Stream) (lineNo diffs : Nat) (skips : List (String × Nat)) :
+    IO (Nat × Nat × List (String × Nat)) := do
   let ln ← h.getLine
-  if ln.isEmpty then return (lineNo, diffs)
+  if ln.isEmpty then return (lineNo, diffs, skips)
   let ln := String.ofList (ln.toList.reverse.dropWhile (fun c => c == '\n' || c == '\r')).reverse
   match handle ctx ln with
-  | none => loop ctx h (lineNo + 1) diffs
+  | none => loop ctx h (lineNo + 1) diffs skips
   | some msg =>
-    IO.println s!"{msg} @line={lineNo + 1}"
-    loop ctx h (lineNo + 1) (diffs + 1)
+    if msg.startsWith "SKIP" then loop ctx h (lineNo + 1) diffs (bump msg skips)
+    else
+      IO.println s!"{msg} @line={lineNo + 1}"
+      loop ctx h (lineNo + 1) (diffs + 1) skips
 
 def main (args : List String) : IO UInt32 := do
   match args with
@@ -166,8 +218,9 @@ def main (args : List String) : IO UInt32 := do
     let U := parseUniverse lines
     let ctx : Ctx := { U := U, R := resolveAll U, S := schemaOf U, P := Frugal.Generated.params }
     let stdin ← IO.getStdin
-    let (n, d) ← loop ctx stdin 0 0
-    IO.println s!"SUMMARY lines={n} diffs={d} structs={U.length}"
+    let (n, d, sk) ← loop ctx stdin 0 0 []
+    let sks := " ".intercalate (sk.map fun (k, c) => s!"[{k}]={c}")
+    IO.println s!"SUMMARY lines={n} diffs={d} structs={U.length} outside_theorem_hypotheses: {sks}"
     return (if d == 0 then 0 else 1)
   | _ =>
     IO.eprintln "usage: driver <universe.txt> < transcript"
